@@ -47,7 +47,4 @@ def run(chk):
 
 def replay(chk, path):
     case = json.load(open(path))
-    soup, o = D.observe_doc(case['input'], case.get('skip_envs', ()))
-    print(json.dumps({'outcome': o['o'], 'tree': repr(soup.expr) if soup else None}))
-    # the oracle of a generated document lives in the TLC run; re-run the check to re-evaluate
-    return 0
+    return D.replay_case(chk, case, 'C02-structure')
